@@ -10,6 +10,8 @@ import (
 	"encoding/json"
 	"fmt"
 	"math/big"
+	"os"
+	"os/exec"
 	"sort"
 	"strings"
 	"time"
@@ -27,9 +29,9 @@ import (
 )
 
 type cs struct {
-	N       int      `json:"parties"`
-	Prog    int      `json:"program"`
-	Inputs  []string `json:"inputs"`
+	N      int      `json:"parties"`
+	Prog   int      `json:"program"`
+	Inputs []string `json:"inputs"`
 	// Inputs2: a second Run on the same Network (same circuit) with these inputs, after the first one returned
 	Inputs2 []string `json:"inputs2,omitempty"`
 	Triples []int    `json:"triple_requests"` // Pool.Get counts issued by every party right after Connect
@@ -423,7 +425,57 @@ func ident(n int) []int {
 	return r
 }
 
+// runRace runs complete GMW sessions free on unmodified code over loopback TCP under the race detector
+// (harness/racepass10): accesses between two synchronisation operations (the triple pool's arrays, share buffers) are
+// atomic under the cooperative scheduler and can only be seen there. Sampled schedules, declared as such.
+func runRace(ctx *runner.Ctx) {
+	count := "3"
+	if !ctx.Quick() {
+		count = "40"
+	}
+	args := []string{"test", "-race", "-vet=off", "-count=" + count}
+	if ctx.Quick() {
+		args = append(args, "-short")
+	}
+	if runner.RepoDir != "/repo" {
+		args = append(args, "-modfile="+os.Getenv("VERIF_WORK")+"/go.mod")
+	}
+	cmd := exec.Command("go", append(args, "./racepass10/")...)
+	cmd.Dir = "/verif/harness"
+	cmd.Env = append(os.Environ(), "GOFLAGS=-mod=mod", "GOPROXY=off")
+	out, err := cmd.CombinedOutput()
+	ctx.Eval(1)
+	o := string(out)
+	tail := o
+	if len(tail) > 1500 {
+		tail = tail[len(tail)-1500:]
+	}
+	k := cs{N: 0, Prog: -1}
+	switch {
+	case strings.Contains(o, "WARNING: DATA RACE"):
+		i := strings.Index(o, "WARNING: DATA RACE")
+		end := i + 1500
+		if end > len(o) {
+			end = len(o)
+		}
+		ctx.Violate("data-race", "race detector report in free-running GMW sessions: "+o[i:end], k)
+	case err != nil && strings.Contains(o, "--- FAIL"):
+		ctx.Violate("wrong-output.free-running", "free-running GMW sessions failed: "+tail, k)
+	case err != nil:
+		panic("race pass could not run: " + tail)
+	case strings.Contains(o, "--- SKIP") || strings.Contains(o, "no loopback"):
+		ctx.Outcome("race-pass-skipped")
+		ctx.Incomplete("the free-running race pass could not use loopback TCP")
+	default:
+		ctx.Outcome("race-pass-clean/count=" + count)
+		ctx.NontrivialN(1)
+	}
+}
+
 func work(ctx *runner.Ctx) {
+	if ctx.Shard == 0 {
+		runRace(ctx)
+	}
 	mpcl.Quiet()
 	if err := csched.SelfTest(); err != nil {
 		panic(err)
@@ -552,6 +604,10 @@ func replay(ctx *runner.Ctx, raw json.RawMessage) {
 		panic(err)
 	}
 	mpcl.Quiet()
+	if k.Prog < 0 {
+		runRace(ctx)
+		return
+	}
 	runCaseSharded(ctx, k, 0, 1)
 }
 
